@@ -34,6 +34,9 @@
 # Round-3 seed C13-7 (theta_union_base::reset keeps a stale union theta): caught by the deterministic 'union-reuse' cases (every 9th case:
 #   a union at lg_k 5..6 fed > 15/8 k distinct keys, get_result, reset, get_result, reuse with exact- and estimation-mode inputs;
 #   an intersection reused after a result), log and array-of-doubles / arithmetic flavours alike.
+# Round-4 seeds: C13-10 (union result filter `<=`: input theta equal to a hash in the union table), C13-11 (move assignment loses theta),
+#   C13-12 (array deserialize(bytes) takes is_ordered from HAS_ENTRIES) are caught by the deterministic block of every 9th case: same stream into a
+#   big exact and a small-k sketch united in both orders; copies by all four means (op 6 `how` token); operands presented as re-read images (op 36).
 # Harmless rewrites confirmed tolerated (exit 0):
 #   H1  theta_union_base::update always copies the incoming entry (no conditional_forward)
 #   H2  STRIDE_HASH_BITS 7 -> 8 (different slot order in every table)
@@ -51,7 +54,7 @@ RULE = ('operation scripts over registers holding update_tuple_sketch / compact_
         'update overload (every 9th case feeds EVERY key overload its edge values: >= 2^31, >= 2^63, negative, -0.0, NaN payloads, empty string, strings / buffers of every length 0..40, into an lg_k 12 sketch and a Theta sketch), lengths aimed at resize / rebuild thresholds, trim / reset / compact(ordered or not) / copy / filter interleaved; then set '
         'operations over the registers in every input form (update sketch, ordered / unordered compact, filter result, compact_tuple_sketch built from a '
         'Theta sketch, results of earlier set operations), as lvalues and as rvalues (moved copies), unions smaller than their inputs so that trimming '
-        'triggers, several get_result per union / intersection, seed mismatches; after every set operation or filter the lvalue operands are queried again (must be unchanged) and the operation is repeated (same result required); every sketch-valued result is dumped (theta64, is_empty, is_ordered, '
+        'triggers, several get_result per union / intersection, seed mismatches; every 9th case adds deterministically: a union reused after reset (own table rebuilt), the same stream into a big exact and a small-k sketch united in both orders (input theta equal to a hash in the union table), copies by copy ctor / copy-assign onto a sketch in another state / move ctor / move-assign, and operands presented as deserialize(bytes|stream) of serialize(compact(ordered|unordered)); after every set operation or filter the lvalue operands are queried again (must be unchanged) and the operation is repeated (same result required); every sketch-valued result is dumped (theta64, is_empty, is_ordered, '
         'sorted (key, summary) pairs) and compared with the model, and the property predicates are evaluated on the dumps; '
         'non-trivial = the case has a set operation or filter on non-empty operands, or reaches estimation mode, or repeats keys')
 TRUSTED = ['MurmurHash3 model coq/Murmur3.v and the input canonicalisation coq/Canon.v (exercised against the implementation by every update of this check)',
@@ -112,7 +115,8 @@ def edge_battery():
 
 class G:
     """script builder for one case"""
-    def __init__(self, rng, pol):
+    def __init__(self, rng, pol, seed=9001):
+        self.seed = seed
         self.rng = rng; self.pol = pol; self.ops = []; self.tags = set(); self.ctr = 0; self.next_tmp = 100; self.repeats = {}
     def vals(self):
         self.ctr += 1
@@ -135,8 +139,12 @@ class G:
             self.ops.append([10, theta_reg, t, rng.randrange(2), rng.randrange(3), self.pol] + v)
             self.tags.add('theta-operand')
             return t
-        if z < 0.35:
+        if z < 0.24:
             self.ops.append([7, r]); return r
+        if z < 0.35:
+            # the same sketch as deserialize(serialize(compact(r, ordered))) through the bytes / stream reader
+            t = self.tmp(); self.ops.append([7, r]); self.ops.append([36, r, t, rng.randrange(2), rng.randrange(2), self.seed]); self.tags.add('reloaded-operand')
+            return t
         if z < 0.80:
             t = self.tmp(); self.ops.append([5, r, t, 1 if z < 0.6 else 0]); return t
         if z < 0.92:
@@ -158,7 +166,7 @@ class G:
     def movable(self, r):
         """(register, mv flag): either r itself as an lvalue, or a fresh copy handed over as an rvalue"""
         if self.rng.random() < 0.4:
-            t = self.tmp(); self.ops.append([6, r, t]); return t, 1
+            t = self.tmp(); self.ops.append([6, r, t, self.rng.randrange(4)]); return t, 1
         return r, 0
 
 def gen(rng, tier):
@@ -170,7 +178,7 @@ def gen(rng, tier):
         g = G(rng, pol)
         lgk = rng.choice([5, 5, 5, 6, 6, 7]) if (quick or ci % 40) else 12
         k = 1 << lgk
-        seed = rng.choice([9001, 9001, 9001, 1, 123456789])
+        seed = rng.choice([9001, 9001, 9001, 1, 123456789]); g.seed = seed
         pk = rng.random()
         pb = P_ONE if pk < 0.6 else (fbits(0.5) if pk < 0.85 else fbits(0.1))
         nsk = rng.choice([1, 2, 3, 3])
@@ -257,6 +265,32 @@ def gen(rng, tier):
             g.ops.append([17, IR, 80, 0]); g.ops.append([18, IR, g.tmp(), 1]); g.again()
             g.ops.append([7, ES]); g.ops.append([17, IR, ES, 0]); g.ops.append([18, IR, g.tmp(), 0])
             g.ops.append([17, IR, SM, 0]); g.ops.append([18, IR, g.tmp(), 1]); g.again()
+            # copies by all four means (copy ctor, copy-assign onto a sketch in another state, move ctor, move-assign) of an
+            # estimation-mode and of an exact-mode sketch, and of their compact forms
+            for r in (ES, SM):
+                g.ops.append([7, r]); c = g.tmp(); g.ops.append([5, r, c, rng.randrange(2)])
+                for how in range(4):
+                    t = g.tmp(); g.ops.append([6, r, t, how]); g.ops.append([7, t]); g.update(t, 777 + how); g.ops.append([7, t]); g.ops.append([7, r])
+                    t = g.tmp(); g.ops.append([6, c, t, how]); g.ops.append([7, t]); g.ops.append([7, c])
+            # a later union input whose theta EQUALS a hash already in the union table: the same stream into a big exact sketch
+            # and into a small-k sketch (estimation mode: its theta is one of the stream's hashes), both orders
+            BG, SK2, U2 = 85, 86, 64
+            g.ops.append([1, BG, pol, 9, 0, P_ONE, seed]); g.ops.append([1, SK2, pol, 5, 0, P_ONE, seed])
+            for i in range(150):
+                v = g.vals(); ko = key_op(rng, 30000 + i)
+                g.ops.append([2, BG, 0, len(v)] + v + ko); g.ops.append([2, SK2, 0, len(v)] + v + ko)
+            g.ops.append([7, BG]); g.ops.append([7, SK2])
+            for order in ((BG, SK2), (SK2, BG)):
+                g.ops.append([12, U2, pol, 9, 0, P_ONE, seed])
+                for r in order: g.ops.append([13, U2, r, 0])
+                g.ops.append([14, U2, g.tmp(), rng.randrange(2)]); g.again()
+            # operands presented as re-read images (bytes and stream, ordered and unordered compact forms)
+            for r in (ES, SM, BG):
+                for ordf in (0, 1):
+                    for path in (0, 1):
+                        t = g.tmp(); g.ops.append([36, r, t, ordf, path, seed]); g.ops.append([7, t])
+                        t2 = g.tmp(); g.ops.append([19, t, SK2, t2, 1, seed, 0]); g.again()
+                        g.ops.append([16, IR, pol, seed]); g.ops.append([17, IR, SK2, 0]); g.ops.append([17, IR, t, 0]); g.ops.append([18, IR, g.tmp(), 1])
             g.tags.add('union-reuse')
         # ---- set operations
         UN, IN = 60, 61
@@ -458,6 +492,8 @@ def oracle(case, irecs, mrecs):
                 d['pol'] = obs[r]['pol']
                 same_content(d, obs[r], i, 'query_changed', 'query of an immutable compact sketch')
             continue
+        if code == 36:
+            op = [5, op[1], op[2], op[3]]; code = 5       # a re-read image of compact(r, ordered) is that compact sketch
         if code in (5, 6):
             if refused: continue
             d = parse_dump(R)
